@@ -1,6 +1,8 @@
 """Exploratory structured Markdown generator (hypothesis). Feature-flagged."""
 from hypothesis import strategies as st
 
+from vf.layout import GAP, realize
+
 PLAIN = ["'single'", "\"double\"", "\"open", "close\"", "it's", "Jones'", "wait...", "...and", "a...b", "alpha", "beta", "Gamma", "delta", "it", "a", "I", "word", "longerword", "x", "Supercalifragilistic",
          "cat", "dog", "The", "of", "to", "42", "3.14", "v1.0.0", "e.g.", "U.S.", "Mr.", "naïve", "über", "αβγ", "Привет", "don't", "co-op", "a/b", "x=y", "(paren)", "semi;", "colon:", "comma,"]
 SENT_END = ["end.", "done!", "really?", "stop.)", "said.\"", "finished.", "ok.", "Yes.", "no."]
@@ -12,8 +14,10 @@ HAZ = {
     "rule": ["---", "***", "___", "- - -"],
     "setext": ["===", "=", "--"],
     "fence": ["```", "~~~", "````"],
-    "pipe": ["|", "a|b", "|x|"],
-    "misc": ["+1", "-x", "#hash", ">x", "1.x", "[", "]", "[x]", "[ ]", "<", "&", "&amp;", "_", "__", "~", "\\", "`", "!", "*x", "x*", "_y", "y_"],
+    "pipe": ["|x|", "|", "|---|"],
+    "misc": ["+1", "-x", "#hash", "1.x", "[", "]", "[x]", "[ ]", "<", "&", "&amp;", "_", "__", "~", "`", "!", "*x", "x*", "_y", "y_", "|", "a|b", ":", "[^a]:", "[a]:"],
+    "gtx": [">x", ">>", ">quote"],
+    "backslash": ["\\"],
 }
 CJK = ["中文", "日本語abc", "abc漢字", "漢"]
 QUOTES = ['"quoted', 'phrase"', "'single", "q'", '"word"', "'w'", "it's", "Jones'", 'x="foo"', "x='y'", '\\"esc\\"', "\\'e\\'", '—"dash"', '"a', 'b",',
@@ -31,8 +35,17 @@ def words(feat):
     if "dots" in feat: pools += [st.sampled_from(DOTS)] * 3
     return st.one_of(pools)
 
+import re as _re
+
+_SENT_END_WORD = _re.compile(r"[^\W\d_]{2,}[.?!]['\"’”)]?$|[^\W\d_]{2,}['\"’”)][.?!]$")
+PLAIN_NO_END = [w for w in PLAIN if not (_SENT_END_WORD.search(w) and w[-2:-1].islower() or w == "Mr.")]
+
+
 def phrase(feat, lo=1, hi=4):
-    return st.lists(st.sampled_from(PLAIN), min_size=lo, max_size=hi).map(" ".join)
+    """Words inside an inline atom. Unless `sent_end_in_atom` is on, none of them looks like a sentence end
+    (semantic mode splits sentences inside atomic constructs: recorded known finding)."""
+    pool = PLAIN if "sent_end_in_atom" in feat else PLAIN_NO_END
+    return st.lists(st.sampled_from(pool), min_size=lo, max_size=hi).map(" ".join)
 
 def atoms(feat):
     """inline atoms (strings that should be single inline constructs)."""
@@ -60,7 +73,7 @@ def atoms(feat):
                               '{% note "hello there" %}', "{# it's a \"comment\" here #}", "<!-- don't \"touch\" this... -->", '{{ "x" }}', "{{ 'y' }}", "{% if a == 'b c' %}",
                               "{% t ... %}", "<!-- wait... -->"])]
     if "escape" in feat:
-        a += [st.sampled_from(["\\*", "\\_", "1\\.", "\\#", "\\-", "\\>", "\\[x\\]", "\\`", "\\\\", "a\\*b", "\\|", "\\<b\\>", "\\&amp;"])]
+        a += [st.sampled_from(["\\*", "\\_", "1\\.", "\\#", "\\-", "\\>", "\\[x\\]", "a\\*b", "\\|", "\\<b\\>", "\\&amp;"] + (["\\`", "\\\\"] if "escape_tick" in feat else []))]
     if "fnref" in feat: a += [st.just("[^fn1]"), st.just("[^nofn]")]
     if "entity" in feat: a += [st.sampled_from(["&amp;", "&lt;", "&#35;", "&copy;", "&nbsp;"])]
     return a
@@ -76,26 +89,23 @@ def para_tokens(feat, lo=1, hi=30):
 
 @st.composite
 def para_lines(draw, feat, lo=1, hi=30):
-    """Return list of source lines for a paragraph (no indent)."""
+    """Source lines of a paragraph (no indent). Words are joined with layout.GAP: the concrete layout (spaces, soft
+    line breaks) is chosen later by layout.realize(). Hard breaks end a line."""
     toks = draw(para_tokens(feat, lo, hi))
-    lines = [[]]
+    segs = [[]]
     for i, t in enumerate(toks):
-        lines[-1].append(t)
-        if i + 1 < len(toks):
-            r = draw(st.integers(0, 9))
-            if r == 0: lines.append([])
-            elif r == 1 and "hardbreak" in feat:
-                lines[-1].append(draw(st.sampled_from(["\\", " "])) )  # marker, processed below
-                lines.append([])
+        segs[-1].append(t)
+        if i + 1 < len(toks) and "hardbreak" in feat and draw(st.integers(0, 11)) == 0:
+            segs[-1].append(draw(st.sampled_from(["\\", "  "])))
+            segs.append([])
     out = []
-    for ln in lines:
-        if not ln: continue
-        if ln[-1] == "\\" and len(ln) > 1: out.append(" ".join(ln[:-1]) + "\\")
-        elif ln[-1] == " " and len(ln) > 1: out.append(" ".join(ln[:-1]) + "  ")
-        else: out.append(" ".join(x for x in ln if x not in ("\\", " ")) or "x")
-    sp = draw(st.sampled_from([" ", " ", " ", "  ", "   "])) if "spaces" in feat else " "
-    if sp != " ": out = [l.replace(" ", sp, 1) if not l.endswith("  ") else l for l in out]
-    # last line must not end in hard break marker
+    for n, sg in enumerate(segs):
+        if not sg:
+            continue
+        if sg[-1] in ("\\", "  ") and len(sg) > 1 and n + 1 < len(segs):
+            out.append(GAP.join(sg[:-1]) + sg[-1])
+        else:
+            out.append(GAP.join(x for x in sg if x not in ("\\", "  ")) or "x")
     out[-1] = out[-1].rstrip("\\ ") or "x"
     return out
 
@@ -111,7 +121,8 @@ def code_block(draw, feat):
     fence = draw(st.sampled_from(["```", "~~~", "````", "~~~~~"]))
     info = draw(st.sampled_from(["", "python", "py extra words", "c++", "{.r}", "js title=\"a b\""]))
     if fence[0] == "`": info = info.replace("`", "")
-    pool = ["x = 1", "  indented", "", "", "\tTab", "- not list", "# not heading", "> nq", "| a |", "<!-- c -->", "{% t %}", "it's \"q\" ...", "trailing  ", "*", "1. x", "    deep", "\\", "***"]
+    pool = ["x = 1", "  indented", "", "", "\tTab", "- not list", "# not heading", "> nq", "| a |", "it's \"q\" ...", "trailing  ", "*", "1. x", "    deep", "\\", "***"]
+    if "code_taglike" in feat: pool += ["<!-- c -->", "{% t %}", "{% /t %}"]
     if "code_fences_inside" in feat: pool += ["```", "~~~", "```py", "  ```", "````", "~~~~"]
     content = draw(st.lists(st.sampled_from(pool), min_size=0, max_size=6))
     # make sure content cannot close the fence
@@ -182,7 +193,7 @@ def list_block(draw, feat, depth, ctx=()):
     loose = draw(st.booleans())
     if ordered:
         start = draw(st.sampled_from([1, 1, 1, 0, 2, 7, 10, 99, 123456789]))
-        delim = draw(st.sampled_from([".", ")"]))
+        delim = draw(st.sampled_from([".", ")"])) if "olist_paren" in feat else "."
     else:
         bullet = draw(st.sampled_from(["-", "*", "+"]))
     task = "task" in feat and not ordered and draw(st.integers(0, 3)) == 0
@@ -196,7 +207,7 @@ def list_block(draw, feat, depth, ctx=()):
             body = draw(blocks(feat, depth - 1, 1, 3, ctx + ('list',)))
         else:
             body = draw(para_lines(feat, 1, 20))
-        if task:
+        if task and body and body[0][:1] not in "`~#>|-*+=_[ \t" and not body[0][:1].isdigit():
             body[0] = draw(st.sampled_from(["[ ] ", "[x] ", "[X] "])) + body[0]
         if "lazy" in feat and draw(st.integers(0, 4)) == 0: rest_i = ""
         else: rest_i = rest
@@ -229,11 +240,18 @@ def block_(feat, depth, ctx=()):
     if "footnote" in feat and depth >= 1: opts.append(footnote_block(feat, depth, ctx))
     return st.one_of(opts)
 
-def doc(feat, depth=2, hi=5):
+def doc_raw(feat, depth=2, hi=5):
+    """Unrealized document text (paragraph words joined by layout.GAP)."""
     feat = frozenset(feat)
     return blocks(feat, depth, 1, hi).map(lambda ls: "\n".join(ls) + "\n")
 
+
+def doc(feat, depth=2, hi=5):
+    """Document text with a random source layout."""
+    return st.tuples(doc_raw(feat, depth, hi), st.integers(0, 2**20)).map(lambda t: realize(t[0], t[1]))
+
+
 ALL = frozenset(["haz_" + k for k in HAZ] + ["cjk", "emph", "strike", "code", "link", "reflink", "autolink", "html", "tags", "escape", "fnref", "entity",
                  "hardbreak", "spaces", "code_fences_inside", "atx", "setext", "fenced", "indcode", "table", "hr", "refdef", "tagline", "tightjoin", "blanklines",
-                 "list", "olist", "task", "listpad", "lazy", "quote", "alert", "footnote"])
+                 "list", "olist", "olist_paren", "escape_tick", "sent_end_in_atom", "code_taglike", "task", "listpad", "lazy", "quote", "alert", "footnote"])
 BASIC = frozenset(["emph", "code", "link", "atx", "fenced", "list", "olist", "quote", "hr", "table"])
